@@ -3,6 +3,8 @@ import TornadoModel.C43.Lemmas
 import TornadoModel.C43.Inv2
 import TornadoModel.C43.Civil
 import TornadoModel.C43.Url
+import TornadoModel.C43.Review
+import TornadoModel.C43.Review2
 import TornadoModel.Base.Wire
 namespace TornadoModel.C43
 open TornadoModel.C06 (Str isToken)
@@ -103,6 +105,69 @@ theorem statusLine_error_kind (line : Str) (e : Err) (h : parseResponseLine line
 example : Spec.StatusLine (ofAscii "HTTP/1.1 200 OK") (ofAscii "HTTP/1.1") 200 (some (ofAscii "OK")) :=
   ⟨ofAscii "200", ofAscii "OK", by decide, by decide, by decide, by decide, by decide, by decide, by decide⟩
 
+/-- the same over character classes written from the RFC text in `SpecExt.lean` (nothing shared with `Model.lean`; the
+    classes coincide: `rfcTchar_eq`, `rfcVersion1_eq`, …).  `relaxedTarget` is Tornado's documented `1*(VCHAR / obs-text)`, a
+    superset of the RFC 9112 request-target forms, and only HTTP major version 1 is accepted. -/
+theorem requestLine_rfc (line m t v : Str) :
+    parseRequestLine line = .ok (m, t, v) ↔ Spec.RfcRequestLine line m t v :=
+  (requestLine_iff line m t v).trans (rfcRequestLine_iff line m t v).symm
+
+theorem statusLine_rfc (line v : Str) (code : Nat) (reason : Option Str) :
+    parseResponseLine line = .ok (v, code, reason) ↔ Spec.RfcStatusLine line v code reason :=
+  (statusLine_iff line v code reason).trans (rfcStatusLine_iff line v code reason).symm
+
+example : Spec.RfcRequestLine (ofAscii "GET /x HTTP/1.1") (ofAscii "GET") (ofAscii "/x") (ofAscii "HTTP/1.1") := by
+  refine ⟨by decide, by decide, by decide, by decide⟩
+
+/-- the ORACLE's start-line spec (`Spec.requestLine`, brute force over all cut points, applied by the harness to the
+    implementation's answer) is the Prop `Spec.RequestLine` of `requestLine_iff`, i.e. equals the model's parser on
+    every line — acceptance with the same three parts, refusal otherwise. -/
+theorem requestLine_oracle (line : Str) : Spec.requestLine line = (parseRequestLine line).toOption := by
+  cases hp : parseRequestLine line with
+  | ok r =>
+    obtain ⟨m, t, v⟩ := r
+    have hs := requestLine_isSome line m t v ((requestLine_iff line m t v).mp hp)
+    cases hr : Spec.requestLine line with
+    | none => rw [hr] at hs; exact Bool.noConfusion hs
+    | some p =>
+      obtain ⟨m', t', v'⟩ := p
+      have h2 := (requestLine_iff line m' t' v').mpr (requestLine_sound line m' t' v' hr)
+      rw [hp] at h2
+      simp only [Except.ok.injEq, Prod.mk.injEq] at h2
+      obtain ⟨rfl, rfl, rfl⟩ := h2
+      rfl
+  | error e =>
+    cases hr : Spec.requestLine line with
+    | none => rfl
+    | some p =>
+      obtain ⟨m', t', v'⟩ := p
+      have h2 := (requestLine_iff line m' t' v').mpr (requestLine_sound line m' t' v' hr)
+      rw [hp] at h2
+      cases h2
+
+theorem statusLine_oracle (line : Str) : Spec.statusLine line = (parseResponseLine line).toOption := by
+  cases hp : parseResponseLine line with
+  | ok r =>
+    obtain ⟨v, c, rs⟩ := r
+    have hs := statusLine_isSome line v c rs ((statusLine_iff line v c rs).mp hp)
+    cases hr : Spec.statusLine line with
+    | none => rw [hr] at hs; exact Bool.noConfusion hs
+    | some p =>
+      obtain ⟨v', c', rs'⟩ := p
+      have h2 := (statusLine_iff line v' c' rs').mpr (statusLine_sound line v' c' rs' hr)
+      rw [hp] at h2
+      simp only [Except.ok.injEq, Prod.mk.injEq] at h2
+      obtain ⟨rfl, rfl, rfl⟩ := h2
+      rfl
+  | error e =>
+    cases hr : Spec.statusLine line with
+    | none => rfl
+    | some p =>
+      obtain ⟨v', c', rs'⟩ := p
+      have h2 := (statusLine_iff line v' c' rs').mpr (statusLine_sound line v' c' rs' hr)
+      rw [hp] at h2
+      cases h2
+
 /-! ### `_parse_header` never raises (after the `fix:` commit for the RFC 2231 finding) -/
 
 /-- one RFC 2231 parameter whose continuations `decode_params` can sort decodes without an exception (the charset
@@ -155,10 +220,9 @@ theorem withKey_not_uncaught (key : Str) (r : Except Err (List (Str × Str))) (h
     | httpInput => rfl
     | unmodelled => rfl
 
-/-- `parseHeader_total` (the clause "the header-parameter parser never raises", full strength): for EVERY line the
-    fixed `_parse_header` returns or — for an RFC 2231 charset naming a codec outside the model — stays inside the stdlib
-    codec call, which the fix wraps in `except ValueError`; no exception type escapes. -/
-theorem parseHeader_total (line : Str) : Spec.isUncaught (parseHeader line) = false := by
+/-- no exception type other than (possibly) `HTTPInputError` escapes — the statement the review found too weak (it also
+    holds for a parser that raises HTTPInputError); kept, superseded by `parseHeader_total` below -/
+theorem parseHeader_not_uncaught (line : Str) : Spec.isUncaught (parseHeader line) = false := by
   unfold parseHeader
   have hne : parseparam line ≠ [] := by
     simp only [parseparam, ne_eq, List.map_eq_nil_iff]
@@ -182,6 +246,18 @@ theorem parseHeader_total (line : Str) : Spec.isUncaught (parseHeader line) = fa
           rw [List.any_eq_false] at hm
           exact Bool.of_not_eq_true (hm p hp')
         exact withKey_not_uncaught key _ (foldlM_rfc2231_not_uncaught g.ext _ hall)
+
+/-- `parseHeader_total` (the clause "the header-parameter parser never raises"): for EVERY line the fixed `_parse_header`
+    RETURNS — or the value of an RFC 2231 extended parameter is handed to a stdlib codec outside the model (charset other
+    than utf-8 / us-ascii / latin-1 / a name with NUL), the one place where the model says `unmodelled` and the claim rests
+    on the tie.  In particular no `HTTPInputError` and no other exception on any modelled path. -/
+theorem parseHeader_total (line : Str) : (∃ r, parseHeader line = .ok r) ∨ parseHeader line = .error .unmodelled :=
+  rou_cases _ (parseHeader_rou line)
+
+theorem parseHeader_error_unmodelled (line : Str) (e : Err) (h : parseHeader line = .error e) : e = .unmodelled := by
+  rcases parseHeader_total line with ⟨r, hr⟩ | hr
+  · rw [hr] at h; cases h
+  · rw [hr] at h; injection h with h; exact h.symm
 
 /-- `parseHeader_plain_returns`: when no parameter name has the RFC 2231 shape `name*`, `name*N`, `name*N*` the parser
     returns a result (not even `unmodelled`) — for every such line. -/
@@ -277,6 +353,34 @@ theorem valid_ip_ascii (gai : Str → Gai) (s : Str) (h : isValidIp gai s = .ok 
       exact Bool.noConfusion this
     · simpa using hc.2
 
+/-- contract-free content of the accept half: on plain address text `is_valid_ip` adds nothing to the resolver — the three
+    pre-checks pass and the answer is the resolver's verdict (so `valid_ip_spec` is exactly "the resolver accepts plain
+    address text", a contract of `getaddrinfo(AI_NUMERICHOST)` that is assumed, not proved; tie: oracle on every `ip` case) -/
+theorem valid_ip_plain_resolver (gai : Str → Gai) (s : Str) (hp : Spec.plainIP s = true) :
+    isValidIp gai s = (match gai s with
+      | .addrs n => .ok (n != 0) | .noname => .ok false | .otherError => .error (.uncaught "gaierror")
+      | .unicodeError => .ok false) := by
+  obtain ⟨he, h0, ha⟩ := plainIP_prechecks s hp
+  have hc : s.contains 0 = false := by simpa using h0
+  simp only [isValidIp, he, hc, ha, Bool.not_true, Bool.or_self, Bool.false_eq_true, if_false]
+  cases gai s <;> rfl
+
+/-- "rejects host names": given the resolver contract "a host name is not numeric: EAI_NONAME under AI_NUMERICHOST",
+    every `Spec.hostName` is rejected.  Like `valid_ip_spec` this is relative to the (assumed) resolver contract. -/
+theorem valid_ip_hostname (gai : Str → Gai) (s : Str)
+    (hc : ∀ s, Spec.hostName s = true → gai s = .noname) (hn : Spec.hostName s = true) : isValidIp gai s = .ok false :=
+  valid_ip_noname gai s (hc s hn)
+
+/-- the two resolver contracts are about disjoint sets of strings (they can hold together) -/
+theorem hostName_not_plainIP (s : Str) (h : Spec.hostName s = true) : Spec.plainIP s = false :=
+  hostName_not_plainIP_proof s h
+
+example : Spec.hostName (ofAscii "example.com") = true ∧ Spec.hostName (ofAscii "localhost") = true ∧
+    Spec.hostName (ofAscii "www.example.org.") = true ∧ Spec.hostName (ofAscii "my-host") = true ∧
+    Spec.hostName (ofAscii "0x7f.1") = false ∧ Spec.hostName (ofAscii "dead.beef") = false ∧
+    Spec.hostName (ofAscii "1.2.3.4") = false ∧ Spec.hostName (ofAscii "a..b") = false ∧ Spec.hostName [] = false ∧
+    Spec.hostName (ofAscii "host name") = false := by decide
+
 /-! ### `split_host_and_port` -/
 
 /-- the unfixed function raised exactly on a syntactically matching port with more digits than `int()` converts -/
@@ -295,16 +399,20 @@ theorem splitHostPortOld_raises_iff (s : Str) :
       simp only [Option.some.injEq, Prod.mk.injEq] at heq
       exact hl (heq.2 ▸ hl')
 
-/-- the fixed function (total by its type: it has no error outcome) agrees with the old one wherever that returned,
-    and answers `(netloc, None)` where it raised -/
+/-- "the host/port splitter never raises": the model HAS an error outcome (`int()` is the one call that can raise —
+    `pyInt`: ValueError beyond the digit limit, `unmodelled` on text that is not `\d+`; `except ValueError` catches only
+    that type) and for EVERY string the function returns.  Rests on `netlocMatch_digits` (group 2 of `_netloc_re` is a
+    non-empty run of `\d`, so `int` cannot meet a non-digit) and `pyInt_digits`. -/
+theorem splitHostPort_returns (s : Str) : ∃ r, splitHostPort s = .ok r := splitHostPort_returns_proof s
+
+/-- the fixed function agrees with the old one wherever that returned, and answers `(netloc, None)` where it raised -/
 theorem splitHostPort_total (s : Str) :
-    splitHostPort s = (match splitHostPortOld s with | .ok r => r | .error _ => (s, none)) := by
-  unfold splitHostPort splitHostPortOld
-  cases netlocMatch s with
-  | none => rfl
-  | some p =>
-    obtain ⟨h, ds⟩ := p
-    by_cases hl : ds.length > intMaxDigits <;> simp [hl]
+    splitHostPort s = .ok (match splitHostPortOld s with | .ok r => r | .error _ => (s, none)) :=
+  splitHostPort_old_proof s
+
+example : (splitHostPort (ofAscii "h:80")).toOption = some (ofAscii "h", some 80) ∧
+    (splitHostPort [104, 58, 1640, 65296]).toOption = some ([104], some 80) ∧
+    (splitHostPort (ofAscii "[::1]")).toOption = some (ofAscii "[::1]", none) := by decide
 
 /-! ### `url_concat` -/
 
